@@ -21,6 +21,9 @@ CHECKS = {
  'C04': ('bounded-exhaustive comparison table against a direct transcription of the RFC rules, algebraic laws asserted on the library\'s own answers, plus property-based metamorphic equal/unequal copies and adjacent doubles',
          'All ordered pairs of a 44-value universe (every JSON kind, colliding values, Nothing) x 6 operators x operand forms are evaluated through the public API and compared with the RFC 9535 2.3.5.2.2 rules; != / <= / >= / trichotomy laws are asserted on the library\'s answers independently of the oracle; random deep values are compared with respelled/reordered (equal) and minimally changed (unequal) copies; random numeric neighbours. Exhaustive inside the table, exploration outside.',
          'Trusted: compare()/eq_json() of the harness (self-tested on the 28-row RFC table); numbers restricted to finite doubles and I-JSON integers.', 'DESIGN.md section 4 C04'),
+ 'C05': ('bounded-exhaustive and property-based truth-table testing: formulas over document-controlled atoms, one child per valuation, Boolean evaluation as oracle (cross-checked with the reference evaluator); generated nested filters for @/$ scoping',
+         'Every formula with <= 3 connectives over 3 atoms (and random deeper ones over <= 4 atoms) is rendered with minimal and with redundant parentheses and run against a document that holds one child per valuation, so precedence, negation, existence of falsy values and nested-filter atoms are checked on whole truth tables, for children of arrays and of objects; random two/three-level filters make the inner/outer @ and $ distinguishable. Exhaustive inside the formula box, exploration outside.',
+         'Trusted: Boolean evaluation of the formula; atom encodings in harness/src/props/c05.rs; the reference evaluator for the scoping family.', 'DESIGN.md section 4 C05'),
 }
 NOT_YET = 'check under construction in this session (designed in DESIGN.md section 4); not yet registered'
 
